@@ -10,7 +10,6 @@ import (
 	"github.com/buildbuildio/pebbles/requests"
 )
 
-func verifRequestBody(r *http.Request) []byte
 
 // ---- HTTP-level federation: the gateway talks to the fake services through the real
 // MultiOpQueryer (queryBatch / fetch / JSON), the harness is the transport. ----
@@ -89,7 +88,7 @@ func verifDo(req *http.Request) (*http.Response, error) {
 
 func vNewHTTPFed(w *vWorld, maxBatch int, opts []GatewayOption, sdls ...string) *vFed {
 	opts = append(opts, WithQueryerFactory(func(_ *planner.PlanningContext, url string) queryer.Queryer {
-		return queryer.NewMultiOpQueryer(url, maxBatch).WithHTTPClient(&http.Client{})
+		return queryer.NewMultiOpQueryer(url, maxBatch).WithHTTPClient(&http.Client{Transport: vNativeTransport{verifDo}})
 	}))
 	f := vNewFedOpts(w, opts, sdls...)
 	vHTTPFed = f
